@@ -872,6 +872,11 @@ def _stmt_end_after(toks, idx):
     return n
 
 
+def _stmt_end_from_start(toks, start):
+    """end (exclusive) of the statement whose first token is at `start`"""
+    return _stmt_end_after(toks, start)
+
+
 def _stmt_start_before(toks, idx, lo):
     """index of the first token of the statement containing token idx (scan back to the
     previous ';', '{' or '}' at the same depth)."""
@@ -1211,7 +1216,7 @@ def _build_fn(sf: SourceFile, item: Item, impl, ex: Extract, props, rep, unit, a
             continue
         a0, b0 = hits[k - 1]
         if where == "after":
-            pos = _stmt_end_after(body_toks, b0)
+            pos = _stmt_end_from_start(body_toks, _stmt_start_before(body_toks, a0, 1))
         else:
             pos = _stmt_start_before(body_toks, a0, 1)
         body_toks[pos:pos] = [T("raw", "\n" + text + "\n")]
@@ -1427,9 +1432,9 @@ def _extract_block(body_toks, frm, to, a, rep):
         hits2 = [h for h in _find_seq_any(body_toks, pat2) if h[0] >= s]
         if not hits2:
             raise AnchorLost(f"block_to {to!r}: no match after block_from")
-        e = _stmt_end_after(body_toks, hits2[0][1])
+        e = _stmt_end_from_start(body_toks, _stmt_start_before(body_toks, hits2[0][0], 1))
     else:
-        e = _stmt_end_after(body_toks, hits[0][1])
+        e = _stmt_end_from_start(body_toks, s)
     rep.append(("R0", f"inline block from {frm!r} to {to!r} wrapped as `{a['wrap']}`"))
     tail = a.get("tail", "")
     return [T(PUNCT, "{"), T(WS, "\n")] + body_toks[s:e] + [T("raw", "\n" + tail + "\n"), T(PUNCT, "}")]
